@@ -382,6 +382,7 @@ class Model:
             v = E; return v   ->  return E           (v bound here only and read there only)
             return A if c else B  ->  if c: return A;  return B
             a_ = self.a; .. a_ ..  ->  .. self.a ..   (a_ bound at the top of the method only, self.a never stored in it)
+            PAIR[bool(c)]     ->  PAIR[1] if c else PAIR[0]   (PAIR a two-element class / module constant)
         """
         import re as _re
 
@@ -534,7 +535,61 @@ class Model:
                         fn_node.body[i_] = A().visit(b)
                     if not fn_node.body:
                         fn_node.body.append(ast.copy_location(ast.Pass(), st))
+        rescan: list = []
+        all_pairs = {}
+        for m_ in self.mods.values():
+            for owner in [c for c in ast.walk(m_.tree) if isinstance(c, ast.ClassDef)]:
+                for st in owner.body:
+                    tgt = st.targets[0] if isinstance(st, ast.Assign) and len(st.targets) == 1 else (st.target if isinstance(st, ast.AnnAssign) else None)
+                    val = getattr(st, "value", None)
+                    if isinstance(tgt, ast.Name) and isinstance(val, (ast.Tuple, ast.List)) and len(val.elts) == 2 and \
+                            all(isinstance(x, ast.Attribute) and isinstance(x.value, ast.Name) and x.value.id == "operator" for x in val.elts):
+                        all_pairs.setdefault(tgt.id, []).append(val)
+        # (class constants of operator functions are inherited: a subclass in another module reads them through self.<NAME>; the name
+        # must be bound once in the whole repository)
+        all_pairs = {k: v[0] for k, v in all_pairs.items() if len(v) == 1}
+
+        def bool_indexed(mod_tree):
+            """T[bool(c)] with T a two-element tuple / list bound once at class or module level  ->  (T[1] if c else T[0]):
+            a pair indexed by a truth value is a choice"""
+            pairs = {}
+            for owner in [mod_tree] + [c for c in ast.walk(mod_tree) if isinstance(c, ast.ClassDef)]:
+                for st in owner.body:
+                    tgt = st.targets[0] if isinstance(st, ast.Assign) and len(st.targets) == 1 else (st.target if isinstance(st, ast.AnnAssign) else None)
+                    val = getattr(st, "value", None)
+                    if isinstance(tgt, ast.Name) and isinstance(val, (ast.Tuple, ast.List)) and len(val.elts) == 2 and \
+                            all(isinstance(x, (ast.Name, ast.Attribute, ast.Constant)) for x in val.elts):
+                        pairs.setdefault(tgt.id, []).append(val)
+            pairs = {k: v[0] for k, v in pairs.items() if len(v) == 1}
+            imports_operator = any(isinstance(x, ast.Import) and any(a.name == "operator" and not a.asname for a in x.names) for x in mod_tree.body)
+            inherited = {k for k in all_pairs if k not in pairs}
+            for k in inherited:
+                pairs[k] = all_pairs[k]
+
+            class B(ast.NodeTransformer):
+                def visit_Subscript(self, n):
+                    n = self.generic_visit(n)
+                    nm = n.value.id if isinstance(n.value, ast.Name) else (n.value.attr if isinstance(n.value, ast.Attribute) and isinstance(n.value.value, ast.Name)
+                                                                         and (n.value.value.id in ("self", "cls") or n.value.value.id[:1].isupper()) else None)
+                    if nm in pairs and isinstance(n.ctx, ast.Load) and isinstance(n.slice, ast.Call) and isinstance(n.slice.func, ast.Name) and \
+                            n.slice.func.id == "bool" and len(n.slice.args) == 1 and not n.slice.keywords:
+                        import copy as _c
+                        lo, hi = pairs[nm].elts
+                        return ast.copy_location(ast.IfExp(test=n.slice.args[0], body=ast.copy_location(_c.deepcopy(hi), n),
+                                                           orelse=ast.copy_location(_c.deepcopy(lo), n)), n)
+                    return n
+            if pairs:
+                before = ast.dump(mod_tree) if inherited and not imports_operator else None
+                B().visit(mod_tree)
+                if before is not None and ast.dump(mod_tree) != before:
+                    # the inherited constants name `operator.<f>`: the analysis tree of this module gets the import they rely on
+                    k0 = 1 if mod_tree.body and isinstance(mod_tree.body[0], ast.Expr) and isinstance(mod_tree.body[0].value, ast.Constant) else 0
+                    while k0 < len(mod_tree.body) and isinstance(mod_tree.body[k0], ast.ImportFrom) and mod_tree.body[k0].module == "__future__":
+                        k0 += 1
+                    mod_tree.body.insert(k0, ast.Import(names=[ast.alias(name="operator", asname=None)]))
+                    rescan.append(mod_tree)
         for m in self.mods.values():
+            bool_indexed(m.tree)
             T().visit(m.tree)
             for n in ast.walk(m.tree):
                 if isinstance(n, (ast.FunctionDef, ast.AsyncFunctionDef)):
@@ -542,6 +597,8 @@ class Model:
                     split_returns(n)
                     self_aliases(n)
             ast.fix_missing_locations(m.tree)
+            if any(t is m.tree for t in rescan):
+                self.defs[m.name] = self._scan_defs(m)
 
     def _desugar_format(self) -> None:
         """`"a{}b{}".format(x, y)` (also `{0}`, `{name}`, conversions and plain format specs; also through a local bound once to the
